@@ -14,6 +14,14 @@ from ..model import AnalysisError, Func, own_nodes, src
 from ..pathsem import PathInfo, feasible, function_paths, resolve_local
 from .common import chain, deep_resolve, mentions, reachable_without_edges
 
+def items_to_ints_func(ctx: Ctx) -> Func:
+    """Port._line__items_to_ints with private value-less helpers called as statements inlined (an extracted
+    `_check(ports)` keeps the guards the arity rules look for) and list comprehensions written as loops."""
+    from .normalise import normalised
+
+    return normalised(ctx, ctx.func("Port._line__items_to_ints"), "calls,decomp")
+
+
 PROPERTY = "C08"
 LEVEL = "other"
 EXPLANATION = (
@@ -215,7 +223,7 @@ def run(ctx: Ctx, rep: Report, tier: str) -> None:  # noqa: C901
     else:
         rep.violation("Port._line__operator", "validation", "the operator token is not validated against OPERATORS", where(lo))
     # arity
-    li = ctx.func("Port._line__items_to_ints")
+    li = items_to_ints_func(ctx)
     guards = [n for n in own_nodes(li.node) if isinstance(n, ast.If) and any(isinstance(s, ast.Raise) for s in n.body)]
     platforms = folder.const("helpers", "PLATFORMS")
     expected = {}
@@ -524,7 +532,7 @@ def validated_is_returned(ctx: Ctx, rep: Report, rid: str = "R08.1b") -> None:
     length-preserving reordering (sorted/list/tuple/reversed): de-duplication or filtering after the
     check changes the arity that was validated."""
     rep.rule(rid)
-    li = ctx.func("Port._line__items_to_ints")
+    li = items_to_ints_func(ctx)
     lenvars: Set[str] = set()
     for n in own_nodes(li.node):
         if isinstance(n, ast.If) and any(isinstance(s_, ast.Raise) for s_ in n.body):
@@ -561,7 +569,7 @@ def operand_range(ctx: Ctx, rep: Report, rid: str = "R08.8") -> None:
     `for i in xs: if C(i): raise`.
     """
     rep.rule(rid)
-    li = ctx.func("Port._line__items_to_ints")
+    li = items_to_ints_func(ctx)
     folder = ctx.folder
     accepted: Optional[IntSet] = None
 
